@@ -59,6 +59,14 @@ int main(int argc, char** argv)
         }
         return 0;
     }
+    if (op == "cfgq")
+    {   // cfgq <n> <hex config>*n <hex sqf>...: load n config texts into one VM, then run every sqf text on it
+        int n = atoi(argv[2]);
+        void* vm = w_vm_new(1023, 0, 1);
+        for (int i = 0; i < n; i++) { std::string t = unhex(argv[3 + i]); char* b = (char*)malloc(t.size() + 1); memcpy(b, t.data(), t.size()); printf("CONFIG %d\n", w_vm_parse_config(vm, b, t.size())); }
+        for (int i = 3 + n; i < argc; i++) { std::string t = unhex(argv[i]); char* b = (char*)malloc(t.size() + 1); memcpy(b, t.data(), t.size()); printf("RUN %d\n", i - 3 - n); printf("RESULT %d\n", w_vm_run_sqf(vm, b, t.size(), 0)); }
+        return 0;
+    }
     if (op == "timed")
     {   // timed <max_runtime_ms> <gap_ms> <hex>: create VM with the limit, sleep gap, then run the text twice (real clock)
         long M = atol(argv[2]); long gap = atol(argv[3]); std::string text = unhex(argv[4]);
